@@ -129,11 +129,12 @@ def run(out, info, tier, seed):
         child = child_of(idx)
         want_reject = spec_reject(ps, pd, sa, da, sh, w, ini, dst_any=(child[1] if child[1] in (2, 3) else False))
         asyn = bool(want_reject) and idx % 2 == 1       # every other call that has to be rejected also asks for async_requests
-        res, unchanged, eff = one_case_wrapped(ps, pd, sa, da, sh, w, ini, cache, prior, child, asyn=asyn)
+        stray = (not ini) and sa != da and idx % 4 == 1       # initial_data given, but under keys that are not the pair's source attribute
+        res, unchanged, eff = one_case_wrapped(ps, pd, sa, da, sh, w, ini, cache, prior, child, asyn=asyn, stray_init=stray)
         seen += 1
         hist[res.split(':')[0]] = hist.get(res.split(':')[0], 0) + 1
         desc = dict(kind='connect', src_group=ps, dst_group=pd, src_attr=sa, dst_attr=da, time_shifted=sh, weak=w,
-                    initial_data=ini, cache=cache, prior_connection=prior, child_entity=list(child), async_requests=asyn)
+                    initial_data=ini, cache=cache, prior_connection=prior, child_entity=list(child), async_requests=asyn, stray_initial_data=stray)
         # monitor: the property itself on the implementation
         if res.startswith('crashed') or (res == 'rejected') != bool(want_reject):
             violations.append(dict(desc, expected='rejected' if want_reject else 'accepted', observed=res))
@@ -188,7 +189,7 @@ def run(out, info, tier, seed):
                     'outcome_histogram': hist, 'monitor_failures': len(violations), 'correspondence_mismatches': len(mismatches)}
 
 
-def one_case_wrapped(ps, pd, sa, da, sh, w, ini, cache, prior, child=(False, False), asyn=False):
+def one_case_wrapped(ps, pd, sa, da, sh, w, ini, cache, prior, child=(False, False), asyn=False, stray_init=False):
     # build_world does not return entity handles; wrap World.start to record them.  child[k]: the entity of
     # simulator k is a child (model M) of a parent entity of another model P whose attribute facts differ.
     import mosaik.scenario as sc
@@ -230,6 +231,7 @@ def one_case_wrapped(ps, pd, sa, da, sh, w, ini, cache, prior, child=(False, Fal
         if sh: kw['time_shifted'] = sh
         if w: kw['weak'] = True
         if ini: kw['initial_data'] = {sa: 'INIT'}
+        elif stray_init: kw['initial_data'] = {da: 'STRAY', 'other': 'STRAY'}     # keys that name no SOURCE attribute of the call: no initial data for this pair
         if asyn: kw['async_requests'] = True        # (a rejected call must not leave the async-requests relation behind either)
         try:
             world.connect(src, dst, (sa, da), **kw); res = 'accepted'
@@ -320,7 +322,7 @@ def replay(path, out):
     if r.get('kind') != 'connect':
         print(json.dumps(r, indent=1)); print('obligation replay: re-run ./check C11'); return 1
     res, unchanged, eff = one_case_wrapped(r['src_group'], r['dst_group'], r['src_attr'], r['dst_attr'], r['time_shifted'],
-                                           r['weak'], r['initial_data'], r['cache'], r['prior_connection'], tuple(r.get('child_entity', (False, False))), asyn=r.get('async_requests', False))
+                                           r['weak'], r['initial_data'], r['cache'], r['prior_connection'], tuple(r.get('child_entity', (False, False))), asyn=r.get('async_requests', False), stray_init=r.get('stray_initial_data', False))
     want = spec_reject(r['src_group'], r['dst_group'], r['src_attr'], r['dst_attr'], r['time_shifted'], r['weak'], r['initial_data'],
                        dst_any=(tuple(r.get('child_entity', (False, False)))[1] if tuple(r.get('child_entity', (False, False)))[1] in (2, 3) else False))
     print('observed:', res, 'tables unchanged:', unchanged, 'expected:', 'rejected' if want else 'accepted')
